@@ -451,9 +451,13 @@ func (s *Stream) handleFrame(f Frame) (err error) {
 	}
 
 	if err != nil {
-		s.state = StateClosedByUs
-		// TODO consider flushing the close
-		s.prepareClose(EncodeCloseFramePayload(CloseProtocolError, ""))
+		// Tell the peer why we are going away, unless we have already sent (or queued) our Close frame: an endpoint
+		// must not send more than one Close frame, nor anything after it.
+		if s.state == StateActive {
+			s.state = StateClosedByUs
+			// TODO consider flushing the close
+			s.prepareClose(EncodeCloseFramePayload(CloseProtocolError, ""))
+		}
 	}
 
 	return err
